@@ -257,12 +257,13 @@ func (c *c02Flat) effAddr(v uint64) uint64 {
 }
 
 func (c *c02Flat) inst(e *c02Env) *insts.Inst {
-	saddr := uint32(0x7f)
+	saddr, seg := uint32(0x7f), uint32(0)
 	if c.sa {
-		saddr = c02SBaseReg
+		// the scalar base exists in the GLOBAL segment only (SEG=2); CDNA3 ignores SADDR in the FLAT segment
+		saddr, seg = c02SBaseReg, 2
 	}
 	return e.decode(c.arch, desc{format: "flat", op: uint32(c.opc), f: map[string]uint32{
-		"vdst": uint32(c.dst), "data": uint32(c.dst), "addr": c02AddrReg, "saddr": saddr, "offset": c.imm & 0x1fff}})
+		"vdst": uint32(c.dst), "data": uint32(c.dst), "addr": c02AddrReg, "saddr": saddr, "seg": seg, "offset": c.imm & 0x1fff}})
 }
 
 func c02OpName(opc int) string {
